@@ -54,6 +54,9 @@ type K struct {
 	lastFaultStep int
 	inInv bool
 	cleanups []func()
+	// PostRun checks run after the bubble has ended, on the real clock (e.g. porcupine)
+	PostRun []func() *Violation
+	evSeq   int64
 }
 
 func NewK(c *Chooser) *K {
@@ -367,6 +370,8 @@ type Op struct {
 	Err     error
 	Val     interface{}
 	EffAt   int // number of effects on the node's disk when the op returned
+	InvSeq  int64 // global event sequence number at invocation (finer than kernel steps)
+	RetSeq  int64 // global event sequence number at return
 	done    chan struct{}
 }
 
@@ -375,7 +380,8 @@ func (k *K) Go(node int, name string, f func() (interface{}, error)) *Op {
 	k.opSeq++
 	w := k.W
 	w.mu.Lock()
-	op := &Op{ID: k.opSeq, Name: name, Node: node, Invoke: w.step, done: make(chan struct{})}
+	k.evSeq++
+	op := &Op{ID: k.opSeq, Name: name, Node: node, Invoke: w.step, InvSeq: k.evSeq, done: make(chan struct{})}
 	w.tr("op%d n%d %s", op.ID, node, name)
 	w.mu.Unlock()
 	k.Ops = append(k.Ops, op)
@@ -384,6 +390,8 @@ func (k *K) Go(node int, name string, f func() (interface{}, error)) *Op {
 		w.mu.Lock()
 		op.Val, op.Err = v, err
 		op.Return = w.step
+		k.evSeq++
+		op.RetSeq = k.evSeq
 		if node >= 0 && node < len(w.Nodes) {
 			op.EffAt = len(w.Nodes[node].Disk.Effects)
 		}
